@@ -107,6 +107,9 @@ type Frame struct {
 	resultNames []string
 	resultTypes []types.Type
 	defers   []deferred
+	pendingFree []ssa.Value              // bindings of the closure about to be inlined
+	freeBind    map[*ssa.FreeVar]ssa.Value // this (inlined closure) frame: free variable -> captured value in freeFrom
+	freeFrom    *Frame
 	recMeasure []T // entry value of the top-level function's recursion measure (function-level `decreases`)
 	frameHook func(cur *Frame, lv *LV, addr ssa.Value, pos token.Pos)
 	frameMapHook func(cur *Frame, mv ssa.Value, m T, mt *types.Map, pos token.Pos)
@@ -843,6 +846,7 @@ func (f *Frame) loopHeader(li *loopInfo, preds []*ssa.BasicBlock) {
 			f.enc.addFact(nv.S, fmt.Sprintf("(assert (forall ((r!f Int)) (! (=> (<= r!f %s) (= (select %s r!f) (select %s r!f))) :pattern ((select %s r!f)))))", allocEntry.S, nv.S, old.S, nv.S))
 		}
 	}
+	f.preserveLocalCells(li, pre)
 	if _, ok := li.mods["held"]; ok {
 		if hv, ok := f.st["held"]; ok {
 			// automatic (checked on every back edge) invariant: every iteration releases what it acquires
@@ -971,6 +975,83 @@ func (f *Frame) backEdge(from, h *ssa.BasicBlock, ep T) {
 		f.unassumeLast()
 	}
 	f.path, f.pathAcc = savedPath, savedAcc
+}
+
+// preserveLocalCells: address-taken locals of this function (cells) that no instruction of the loop stores to, neither
+// directly nor through a closure that captured them, keep their value across the loop's havoc of the cell arrays.
+func (f *Frame) preserveLocalCells(li *loopInfo, pre State) {
+	written := map[ssa.Value]bool{}
+	var scanFn func(fn *ssa.Function, bind map[*ssa.FreeVar]ssa.Value, depth int)
+	scanInstr := func(in ssa.Instruction, bind map[*ssa.FreeVar]ssa.Value, depth int) {
+		switch x := in.(type) {
+		case *ssa.Store:
+			root := rootOf(x.Addr)
+			if fv, ok := root.(*ssa.FreeVar); ok && bind != nil {
+				root = bind[fv]
+			}
+			if root != nil {
+				written[root] = true
+			}
+		case *ssa.MakeClosure:
+			if cf, ok := x.Fn.(*ssa.Function); ok && depth < 3 {
+				nb := map[*ssa.FreeVar]ssa.Value{}
+				for i, fv := range cf.FreeVars {
+					if i < len(x.Bindings) {
+						b := x.Bindings[i]
+						if bfv, ok := b.(*ssa.FreeVar); ok && bind != nil {
+							b = bind[bfv]
+						}
+						nb[fv] = b
+					}
+				}
+				scanFn(cf, nb, depth+1)
+			}
+		case ssa.CallInstruction:
+			// a local whose address is passed to a call may be written by the callee
+			for _, a := range x.Common().Args {
+				root := rootOf(a)
+				if fv, ok := root.(*ssa.FreeVar); ok && bind != nil {
+					root = bind[fv]
+				}
+				if _, isAlloc := root.(*ssa.Alloc); isAlloc {
+					written[root] = true
+				}
+			}
+		}
+	}
+	scanFn = func(fn *ssa.Function, bind map[*ssa.FreeVar]ssa.Value, depth int) {
+		for _, b := range fn.Blocks {
+			for _, in := range b.Instrs {
+				scanInstr(in, bind, depth)
+			}
+		}
+	}
+	// closures made anywhere in the function may be called inside the loop: scan every closure, and the loop's own code
+	for _, b := range f.fn.Blocks {
+		for _, in := range b.Instrs {
+			if mc, ok := in.(*ssa.MakeClosure); ok {
+				scanInstr(mc, nil, 0)
+			}
+			if li.blocks[b] {
+				scanInstr(in, nil, 0)
+			}
+		}
+	}
+	for v, lv := range f.lvs {
+		al, ok := v.(*ssa.Alloc)
+		if !ok || lv.kind != lvCell || written[al] {
+			continue
+		}
+		if !(al.Block() == li.header || al.Block().Dominates(li.header)) || li.blocks[al.Block()] {
+			continue
+		}
+		nv, ok1 := f.st[lv.arr]
+		old, ok2 := pre[lv.arr]
+		if !ok1 || !ok2 || nv.S == old.S {
+			continue
+		}
+		f.enc.factAbout(nv, Eq(Select(nv, lv.idx), Select(old, lv.idx)))
+	}
 }
 
 // joinSplits: case analysis for an obligation stated at the end of block b: the incoming edges of the nearest join
